@@ -274,6 +274,7 @@ def generate(tier, seed, ctx):
         R.append(gen_vhist(rng, rng.randint(3, 14)))
     for _ in range(1000 if thorough else 200):
         R.append(gen_mhist(rng, rng.randint(3, 12)))
+    R += triple_corpus()
     # the shortest stale-state histories as a fixed corpus
     R.append("c04.vhist 2 0x1.8p+1 0x1p+2 3 N - 2 0x1.8p+1 0x0p+0 N")
     R.append("c04.vhist 2 0x1.8p+1 0x1p+2 3 N + 2 0x1.8p+1 0x1p+2 N")
@@ -521,6 +522,11 @@ def sqrt_up(q):
     return Fraction(math.sqrt(float(q)) * (1 + 1e-12) + 1e-300) if q > 0 else Fraction(0)
 
 
+def exact_dyadic(xs):
+    """multiples of 2^-16 below 2^16: sums, differences and the <= 4x4 cofactor expansions of such numbers are exact"""
+    return all(abs(x) < 65536 and (x * 65536).denominator == 1 for x in xs)
+
+
 class VSim:
     """state of a Vector history: entries (exact) and the error bound of the C++ object's entries"""
     def __init__(self, v):
@@ -570,6 +576,8 @@ class VSim:
             w = [x + sg * y for x, y in zip(self.v, u)]
             mw = max([abs(x) for x in w], default=Z)
             e = self.err * (1 + 2 * EPS) + EPS * mw
+            if self.err == 0 and exact_dyadic(w) and exact_dyadic(u):
+                e = Fraction(0)      # the additions are exact in double
             if k == "C":
                 c = VSim([]); c.v = w; c.err = e
                 S1, t1 = c.norm_tol(); S0, t0 = self.norm_tol()
@@ -623,6 +631,34 @@ class MSim:
             return [("bool", int(sym), self.err == 0)]
         if k == "S":
             return [("int", r), ("int", c)]
+        if k in ("AY", "DG", "I", "O"):
+            sq = r == c
+            if k == "AY":
+                b = sq and all(self.a[i][j] == -self.a[j][i] for i in range(r) for j in range(r))
+            elif k == "DG":
+                b = sq and all(self.a[i][j] == 0 for i in range(r) for j in range(r) if i != j)
+            else:
+                d = fdet_exact(self.a) if sq and r > 0 else Z
+                b = sq and d != 0
+                if k == "O" and b:
+                    inv = finv_exact(self.a)
+                    b = all(inv[i][j] == self.a[j][i] for i in range(r) for j in range(r))
+            # decided on exact entries only; Orthogonal compares a floating-point inverse exactly: only
+            # checked when the inverse is exact in double too (entries 0, +-1: signed permutations) or the answer is
+            # false for the robust reason "not invertible"
+            sure = self.err == 0 and r <= 4 and all(abs(x) <= 256 and (x * 8).denominator == 1 for row in self.a for x in row)
+            if k == "O" and sure and sq and fdet_exact(self.a) != 0 if r > 0 else False:
+                sure = all(x in (0, 1, -1) for row in self.a for x in row) or not near_orthogonal(self.a)
+            return [("bool", int(b), sure)]
+        if k == "RR":
+            return "err" if op[1] >= r else [("val", x, self.err) for x in self.a[op[1]]]
+        if k == "RC":
+            return "err" if op[1] >= c else [("val", row[op[1]], self.err) for row in self.a]
+        if k == "SM":
+            if op[1] >= r or op[2] >= c:
+                return "err"
+            rows = [[x for j, x in enumerate(row) if j != op[2]] for i, row in enumerate(self.a) if i != op[1]]
+            return [("int", r - 1), ("int", c - 1)] + [("val", x, self.err) for row in rows for x in row]
         if k == "R":
             if op[1] >= r:
                 return "err"
@@ -641,6 +677,8 @@ class MSim:
             w = [[x + sg * Fraction(y) for x, y in zip(ra, rb)] for ra, rb in zip(self.a, B)]
             mw = max([abs(x) for row in w for x in row], default=Z)
             e = self.err * (1 + 2 * EPS) + EPS * mw
+            if self.err == 0 and exact_dyadic([x for row in w for x in row]) and exact_dyadic([Fraction(y) for rb in B for y in rb]):
+                e = Fraction(0)      # the additions are exact in double
             if k == "C":
                 cpy = MSim(w, c); cpy.err = e
                 S1, t1 = cpy.norm_tol(); S0, t0 = self.norm_tol()
@@ -665,6 +703,25 @@ class MSim:
                 del row[op[1]]
             self.c -= 1; return []
         raise ValueError(k)
+
+
+def finv_exact(a):
+    n = len(a)
+    A = [list(r) + [Fraction(int(i == j)) for j in range(n)] for i, r in enumerate(a)]
+    for i in range(n):
+        p = next(r for r in range(i, n) if A[r][i] != 0)
+        A[i], A[p] = A[p], A[i]
+        piv = A[i][i]; A[i] = [x / piv for x in A[i]]
+        for r in range(n):
+            if r != i and A[r][i] != 0:
+                f = A[r][i]; A[r] = [x - f * y for x, y in zip(A[r], A[i])]
+    return [r[n:] for r in A]
+
+
+def near_orthogonal(a):
+    """A^T A within 1e-6 of the identity (then the exact comparison of a rounded inverse is not predictable)"""
+    n = len(a)
+    return all(abs(sum(a[k][i] * a[k][j] for k in range(n)) - int(i == j)) < Fraction(1, 10 ** 6) for i in range(n) for j in range(n))
 
 
 def fdet_exact(a):
@@ -705,85 +762,181 @@ def op_tok(op):
     return " ".join(out)
 
 
+def v_observer(rng, n):
+    k = rng.choice(["N", "N", "D", "S", "R", "M", "C"])
+    if k == "R":
+        return ("R", rng.randrange(n))
+    if k == "C":
+        return ("C", [hval(rng) for _ in range(n)])
+    return (k,)
+
+
+def v_mutator(rng, sim):
+    n = len(sim.v); c = rng.random()
+    if c < 0.45:
+        k = rng.choice(["+", "-", "-"])
+        cur = [float(x) for x in sim.v]
+        if rng.random() < 0.5 and all(Fraction(x) == y for x, y in zip(cur, sim.v)):
+            tgt = ([float(x) for x in rng.choice(PYTHAG)] + [0.0] * n)[:n]     # move to a vector with a rational norm
+            u = [a - b for a, b in zip(cur, tgt)] if k == "-" else [b - a for a, b in zip(cur, tgt)]
+            return (k, u)
+        return (k, [hval(rng) for _ in range(n)])
+    if c < 0.60:
+        return ("W", rng.randrange(n), hval(rng))
+    if c < 0.68:
+        return ("Z", rng.randint(1, 6))
+    if c < 0.76:
+        return ("A", rng.randint(1, 6), hval(rng))
+    if c < 0.90:
+        return ("=", rng.choice(PYTHAG)[:] if rng.random() < 0.6 else [hval(rng) for _ in range(rng.randint(1, 6))])
+    return ("U",)
+
+
+def gen_hist(rng, nops, sim, observer, mutator, okstate):
+    """blocks (observer, mutator, same observer) on one object; every op is validated on the exact simulation"""
+    import copy
+    ops = []
+    def push(op):
+        nonlocal sim
+        trial = copy.deepcopy(sim)
+        res = trial.step(op)
+        if res in ("undef", "err") or not okstate(trial):
+            return False
+        sim = trial; ops.append(op); return True
+    guard = 0
+    while len(ops) < nops and guard < 400:
+        guard += 1
+        o = observer(rng, sim)
+        if not push(o):
+            continue
+        for _ in range(20):
+            if push(mutator(rng, sim)):
+                break
+        o2 = o if rng.random() < 0.75 else observer(rng, sim)
+        if not push(o2):
+            push(observer(rng, sim))
+    return ops
+
+
 def gen_vhist(rng, nops):
     n = rng.randint(1, 6)
     v0 = rng.choice(PYTHAG)[:] if rng.random() < 0.4 else [hval(rng) for _ in range(n)]
-    sim = VSim(v0); ops = []
-    while len(ops) < nops:
-        n = len(sim.v); c = rng.random()
-        if c < 0.30:
-            k = rng.choice(["N", "N", "D", "S", "R", "M"])
-            op = (k, rng.randrange(n)) if k == "R" and n else ((k,) if k != "R" else ("S",))
-        elif c < 0.62:
-            k = rng.choice(["+", "-", "-", "C"])
-            if rng.random() < 0.35 and n >= 1:      # move to a vector with a rational norm: subtract (v - target)
-                tgt = [float(x) for x in rng.choice(PYTHAG)]
-                tgt = (tgt + [0.0] * n)[:n]
-                cur = [float(x) for x in sim.v]
-                if all(Fraction(x) == y for x, y in zip(cur, sim.v)):
-                    u = [a - b for a, b in zip(cur, tgt)] if k != "+" else [b - a for a, b in zip(cur, tgt)]
-                    if all(Fraction(p) == (Fraction(a) - Fraction(b) if k != "+" else Fraction(b) - Fraction(a)) for p, a, b in zip(u, cur, tgt)):
-                        op = (k, u)
-                    else:
-                        op = (k, [hval(rng) for _ in range(n)])
-                else:
-                    op = (k, [hval(rng) for _ in range(n)])
-            else:
-                op = (k, [hval(rng) for _ in range(n)])
-        elif c < 0.72 and n:
-            op = ("W", rng.randrange(n), hval(rng))
-        elif c < 0.78:
-            op = ("Z", rng.randint(1, 6))
-        elif c < 0.84:
-            op = ("A", rng.randint(1, 6), hval(rng))
-        elif c < 0.92:
-            op = ("=", rng.choice(PYTHAG)[:] if rng.random() < 0.6 else [hval(rng) for _ in range(rng.randint(1, 6))])
-        else:
-            op = ("U",)
-        trial = VSim([]); trial.v = list(sim.v); trial.err = sim.err
-        res = trial.step(op)
-        if res in ("undef", "err"):
-            continue
-        if trial.err > Fraction(1, 2 ** 30) or (trial.v and max(abs(x) for x in trial.v) > 2 ** 20):
-            continue
-        sim = trial; ops.append(op)
+    ok = lambda t: t.err <= Fraction(1, 2 ** 30) and len(t.v) >= 1 and max(abs(x) for x in t.v) <= 2 ** 15
+    ops = gen_hist(rng, nops, VSim(v0), lambda r, sm: v_observer(r, len(sm.v)), v_mutator, ok)
     return "c04.vhist %s %d %s" % (lst(v0), len(ops), " ".join(op_tok(o) for o in ops))
+
+
+def hmat(rng, rr, cc):
+    return Rows([[hval(rng) for _ in range(cc)] for _ in range(rr)], cc)
+
+
+def sperm(rng, n):
+    p = list(range(n)); rng.shuffle(p)
+    return Rows([[float(rng.choice([-1, 1])) if j == p[i] else 0.0 for j in range(n)] for i in range(n)], n)
+
+
+def m_observer(rng, sim):
+    r, c = sim.r, sim.c
+    k = rng.choice(["N", "T", "D", "P", "P", "Y", "AY", "DG", "S", "R", "RR", "RC", "RC", "O", "I", "SM", "C"])
+    if k in ("T", "D", "O") and r != c:
+        k = rng.choice(["P", "RC", "N"])
+    if k == "R":
+        return (k, rng.randrange(r), rng.randrange(c))
+    if k == "RR":
+        return (k, rng.randrange(r))
+    if k == "RC":
+        return (k, rng.randrange(c))
+    if k == "SM":
+        return (k, rng.randrange(r), rng.randrange(c))
+    if k == "C":
+        return (k, hmat(rng, r, c))
+    return (k,)
+
+
+def m_mutator(rng, sim):
+    r, c = sim.r, sim.c; q = rng.random()
+    if q < 0.30:
+        return (rng.choice(["+", "-"]), hmat(rng, r, c))
+    if q < 0.62:
+        return ("W", rng.randrange(r), rng.randrange(c), rng.choice([0.0, 1.0, -1.0, hval(rng), hval(rng)]))
+    if q < 0.70:
+        nr = rng.randint(1, 4); return ("Z", nr, nr if rng.random() < 0.5 else rng.randint(1, 4))
+    if q < 0.76:
+        nr = rng.randint(1, 4); return ("A", nr, nr if rng.random() < 0.5 else rng.randint(1, 4), hval(rng))
+    if q < 0.88:
+        nr = rng.randint(1, 4)
+        if rng.random() < 0.4:
+            return ("=", sperm(rng, nr))
+        return ("=", hmat(rng, nr, nr if rng.random() < 0.6 else rng.randint(1, 4)))
+    if q < 0.94:
+        return ("DR", rng.randrange(r)) if r >= 2 else ("W", 0, 0, hval(rng))
+    return ("DC", rng.randrange(c)) if c >= 2 else ("W", 0, 0, hval(rng))
 
 
 def gen_mhist(rng, nops):
     r, c = rng.randint(1, 4), rng.randint(1, 4)
-    if rng.random() < 0.5:
+    if rng.random() < 0.6:
         c = r
-    hm = lambda rr, cc: Rows([[hval(rng) for _ in range(cc)] for _ in range(rr)], cc)
-    A0 = hm(r, c)
-    sim = MSim(A0, c); ops = []
-    while len(ops) < nops:
-        r, c = sim.r, sim.c; q = rng.random()
-        if q < 0.35:
-            k = rng.choice(["N", "N", "T", "D", "P", "Y", "S", "R"])
-            if k in ("T", "D") and r != c:
-                k = "N"
-            op = (k, rng.randrange(r), rng.randrange(c)) if k == "R" else (k,)
-        elif q < 0.62:
-            op = (rng.choice(["+", "-", "-", "C"]), hm(r, c))
-        elif q < 0.72:
-            op = ("W", rng.randrange(r), rng.randrange(c), hval(rng))
-        elif q < 0.78:
-            nr = rng.randint(1, 4); op = ("Z", nr, nr if rng.random() < 0.5 else rng.randint(1, 4))
-        elif q < 0.83:
-            nr = rng.randint(1, 4); op = ("A", nr, nr if rng.random() < 0.5 else rng.randint(1, 4), hval(rng))
-        elif q < 0.90:
-            nr = rng.randint(1, 4); op = ("=", hm(nr, nr if rng.random() < 0.6 else rng.randint(1, 4)))
-        elif q < 0.95 and r >= 2:
-            op = ("DR", rng.randrange(r))
-        elif c >= 2:
-            op = ("DC", rng.randrange(c))
-        else:
-            continue
-        res = sim.step(op)
-        assert res not in ("undef", "err"), (op, res)
-        ops.append(op)
+    A0 = sperm(rng, r) if (r == c and rng.random() < 0.25) else hmat(rng, r, c)
+    ok = lambda t: t.r >= 1 and t.c >= 1 and t.mx() <= 2 ** 12
+    ops = gen_hist(rng, nops, MSim(A0, c), m_observer, m_mutator, ok)
     return "c04.mhist %s %d %s" % (mat_tok(A0), len(ops), " ".join(op_tok(o) for o in ops))
+
+
+def triple_corpus():
+    """deterministic: (observer, mutator, same observer) for every observer x every mutator, on one object"""
+    import copy
+    R = []
+    # ---- Vector: v = (3,4,12), norm 13; every mutator leaves a vector with a rational norm (for Normalized)
+    v0 = [3.0, 4.0, 12.0]
+    vobs = [("N",), ("D",), ("S",), ("R", 0), ("R", 1), ("M",), ("C", [1.0, 0.0, 0.0])]
+    vmut = [[("+", [-2.0, -2.0, -10.0])], [("-", [2.0, 2.0, 10.0])], [("W", 2, 0.0)], [("W", 0, 5.0), ("W", 1, 0.0)], [("Z", 2)],
+            [("Z", 4)], [("A", 4, 1.0)], [("=", [1.0, 2.0, 2.0])], [("U",)]]
+    for o in vobs:
+        for m in vmut:
+            ops = [o] + m + [o]
+            if o[0] == "C":
+                ops = [o] + m + [("N",), ("C", [1.0] + [0.0] * 5)]
+            sim = VSim(v0); good = True; fixed = []
+            for op in ops:
+                if op[0] in ("C",):
+                    op = ("C", op[1][:len(sim.v)])
+                if op[0] == "R" and op[1] >= len(sim.v):
+                    op = ("R", 0)
+                if sim.step(op) in ("err", "undef"):
+                    good = False; break
+                fixed.append(op)
+            if good:
+                R.append("c04.vhist %s %d %s" % (lst(v0), len(fixed), " ".join(op_tok(x) for x in fixed)))
+    # ---- Matrix: three 3x3 objects (symmetric invertible; orthogonal; one entry away from orthogonal)
+    mk = lambda rows: Rows([[float(x) for x in r] for r in rows], len(rows[0]))
+    inits = [mk([[2, 1, 0], [1, 3, 1], [0, 1, 4]]), mk([[0, 1, 0], [-1, 0, 0], [0, 0, 1]]), mk([[0, 5, 0], [-1, 0, 0], [0, 0, 1]])]
+    B = mk([[1, 0, 2], [0, 1, 0], [3, 0, 1]])
+    mobs = [("N",), ("T",), ("D",), ("P",), ("Y",), ("AY",), ("DG",), ("S",), ("R", 0, 1), ("RR", 0), ("RC", 1), ("RC", 0), ("O",),
+            ("I",), ("SM", 1, 0), ("C", B)]
+    mmut = [[("+", B)], [("-", B)], [("W", 0, 1, 1.0)], [("W", 0, 1, 7.0)], [("W", 1, 0, 1.0), ("W", 0, 1, 1.0)], [("W", 2, 2, 0.0)],
+            [("Z", 2, 2)], [("Z", 3, 4), ("DC", 3)], [("A", 3, 3, 2.0)], [("=", B)], [("=", mk([[0, 0, 1], [1, 0, 0], [0, 1, 0]]))],
+            [("DR", 0), ("DC", 0)], [("DR", 2)], [("DC", 1)]]
+    for A0 in inits:
+        for o in mobs:
+            for m in mmut:
+                sim = MSim(A0, A0.ncols); good = True; fixed = []
+                for op in [o] + m + [o]:
+                    if op[0] == "C":
+                        if (sim.r, sim.c) != (3, 3):
+                            op = ("C", Rows([[1.0] * sim.c for _ in range(sim.r)], sim.c))
+                    if op[0] in ("R", "SM") and (op[1] >= sim.r or op[2] >= sim.c):
+                        op = (op[0], 0, 0)
+                    if op[0] == "RR" and op[1] >= sim.r or op[0] == "RC" and op[1] >= sim.c:
+                        op = (op[0], 0)
+                    if op[0] == "SM" and (sim.r < 2 or sim.c < 2):
+                        op = ("P",)
+                    if sim.step(op) in ("err", "undef"):
+                        good = False; break
+                    fixed.append(op)
+                if good:
+                    R.append("c04.mhist %s %d %s" % (mat_tok(A0), len(fixed), " ".join(op_tok(x) for x in fixed)))
+    return R
 
 
 def parse_hist(op, a):
@@ -815,8 +968,10 @@ def parse_hist(op, a):
                 ops.append((k, c.int(), c.int()))
             elif k in ("W", "A"):
                 ops.append((k, c.int(), c.int(), rawf()))
-            elif k in ("DR", "DC"):
+            elif k in ("DR", "DC", "RR", "RC"):
                 ops.append((k, c.int()))
+            elif k == "SM":
+                ops.append((k, c.int(), c.int()))
             elif k in ("+", "-", "=", "C"):
                 ops.append((k, rmat_()))
             else:
@@ -839,7 +994,8 @@ def hist_ref(op, a):
 
 
 OBS_NAME = {"N": "Norm", "D": "Dot/Determinant", "S": "Size/shape", "R": "operator[] read", "M": "Normalized", "T": "Trace",
-            "P": "Transpose", "Y": "Symmetric", "C": "Norm of a mutated copy / of the original"}
+            "P": "Transpose", "Y": "Symmetric", "AY": "Antisymmetric", "DG": "Diagonal", "I": "Invertible", "O": "Orthogonal",
+            "RR": "Return_Row", "RC": "Return_Column", "SM": "Sub_Matrix", "C": "Norm of a mutated copy / of the original"}
 
 
 def check_hist(ref, ti, slack=4):
